@@ -76,3 +76,29 @@ Definition cyl_agree (c : cyl_case) : bool :=
   let cands := cyl_candidates g img_pad img in
   zv_close cands (cy_cands c) &&
   list_eqb (ro (tbl (cy_D c)) (vec (cy_rad c)) 0 (seq 0 (length (cy_rad c)))) (cy_out c).
+
+(* ---- C01: rendered emulsions, then located ---- *)
+From PD Require Import Model.Render Model.RenderSym.
+
+Fixpoint bools_eqb (a b : list bool) : bool :=
+  match a, b with
+  | [], [] => true
+  | x :: a', y :: b' => Bool.eqb x y && bools_eqb a' b'
+  | _, _ => false
+  end.
+
+Definition lab_mask (lab : list nat) : list bool := map (fun l => Nat.ltb 0 l) lab.
+
+(* Cartesian: the implementation's thresholded image equals the model's image of the emulsion, and
+   locating agrees (loc_agree) *)
+Definition c01_cart_agree (c : list sphere * loc_case) : bool :=
+  let '(ds, lc) := c in
+  bools_eqb (mask_emulsion (lc_grid lc) ds) (lab_mask (lc_lab lc)) && loc_agree lc.
+
+Definition c01_rad_agree (c : Q * rad_case) : bool :=
+  let '(R, rc) := c in
+  bools_eqb (radial_mask (rd_lo rc) (rd_dr rc) R (length (rd_mask rc))) (rd_mask rc) && rad_agree rc.
+
+Definition c01_cyl_agree (c : list (Q * Q) * cyl_case) : bool :=
+  let '(ds, cc) := c in
+  bools_eqb (cyl_mask (cy_grid cc) ds) (lab_mask (cy_lab cc)) && cyl_agree cc.
